@@ -1,0 +1,68 @@
+//go:build verif
+
+package textwire
+
+import (
+	"sort"
+
+	"github.com/textwire/textwire/v2/config"
+)
+
+// VerifReset restores the package-level state (configuration, custom function
+// registry and the mode flag) to the values it has when the package is loaded.
+// It only exists in builds with the "verif" tag and is used by the
+// verification harness to load many template trees in one process.
+func VerifReset() {
+	userConfig = config.New("templates", ".tw.html", "", false)
+	customFunc = config.NewFunc()
+	verifResetMode()
+}
+
+// VerifSnapshot describes the package-level state.
+type VerifSnapshot struct {
+	TemplateDir   string
+	TemplateExt   string
+	ErrorPagePath string
+	DebugMode     bool
+	Mode          string
+	StrFuncs      []string
+	ArrFuncs      []string
+	IntFuncs      []string
+	FloatFuncs    []string
+	BoolFuncs     []string
+}
+
+// VerifState returns a copy of the package-level state.
+func VerifState() VerifSnapshot {
+	s := VerifSnapshot{
+		TemplateDir:   userConfig.TemplateDir,
+		TemplateExt:   userConfig.TemplateExt,
+		ErrorPagePath: userConfig.ErrorPagePath,
+		DebugMode:     userConfig.DebugMode,
+		Mode:          verifMode(),
+	}
+
+	for k := range customFunc.Str {
+		s.StrFuncs = append(s.StrFuncs, k)
+	}
+	for k := range customFunc.Arr {
+		s.ArrFuncs = append(s.ArrFuncs, k)
+	}
+	for k := range customFunc.Int {
+		s.IntFuncs = append(s.IntFuncs, k)
+	}
+	for k := range customFunc.Float {
+		s.FloatFuncs = append(s.FloatFuncs, k)
+	}
+	for k := range customFunc.Bool {
+		s.BoolFuncs = append(s.BoolFuncs, k)
+	}
+
+	sort.Strings(s.StrFuncs)
+	sort.Strings(s.ArrFuncs)
+	sort.Strings(s.IntFuncs)
+	sort.Strings(s.FloatFuncs)
+	sort.Strings(s.BoolFuncs)
+
+	return s
+}
